@@ -460,6 +460,13 @@ fn exec_op<'a>(warc: &Arc<World>, w: &'a World, _ix: usize, op: &Op, guards: &mu
             }
         },
         "panic" => panic!("boom-{}", op.v),
+        // fails only on the interleavings in which the previous operation of this task returned `v`
+        "panic_if" => {
+            if acc == op.v {
+                panic!("boom-race");
+            }
+            0
+        }
         // ---- async tasks
         "spawn_future" => {
             let child = op.v as usize;
